@@ -117,7 +117,13 @@ func cmdCheck(args []string) {
 			pkgs[b.Pkg] = true
 		}
 	}
-	if len(blocks) == 0 {
+	var syn []*SynDirective
+	for _, d := range prog.SynDirs {
+		if contains(d.Props, *prop) {
+			syn = append(syn, d)
+		}
+	}
+	if len(blocks) == 0 && len(syn) == 0 {
 		fmt.Fprintf(os.Stderr, "MACHINERY: no contract block is tagged with %s\n", *prop)
 		os.Exit(2)
 	}
@@ -232,6 +238,29 @@ func cmdCheck(args []string) {
 			fmt.Printf("VIOLATION property=%s replay=%s%s\n", *prop, path, suffix)
 			fmt.Printf("  failed obligation: %s  [%s] %s %s\n", r.Obl.Name, r.Status, r.Obl.Pos, r.Obl.Note)
 		}
+	}
+	// frame obligations decided on the typed AST
+	for _, d := range syn {
+		sr := prog.checkSyntactic(d)
+		nObl++
+		funcs = append(funcs, sr.Name)
+		if sr.OK {
+			nDis++
+			provedNames = append(provedNames, sr.Name)
+			if len(samples) < 8 {
+				samples = append(samples, map[string]interface{}{"obligation": sr.Name, "clause": d.Kind + " " + d.Type + "." + d.Field, "solver": "typed-AST scan (no offending site)", "seconds": 0, "dag_nodes": 0})
+			}
+			continue
+		}
+		violations++
+		os.MkdirAll(replayDir, 0o755)
+		path := filepath.Join(replayDir, sanitize(sr.Name)+".json")
+		rp := &Replay{Property: *prop, Obligation: sr.Name, Clause: d.Kind + " " + d.Type + " " + d.Field, Status: "failed", Solver: "typed-AST scan",
+			Note: "frame obligation violated at: " + strings.Join(sr.Sites, ", ") + " " + sr.Detail, SolverOut: strings.Join(sr.Sites, "\n")}
+		data, _ := json.MarshalIndent(rp, "", " ")
+		os.WriteFile(path, append(data, '\n'), 0o644)
+		fmt.Printf("VIOLATION property=%s replay=%s no-failing-input-found\n", *prop, path)
+		fmt.Printf("  failed obligation: %s  sites: %s %s\n", sr.Name, strings.Join(sr.Sites, ", "), sr.Detail)
 	}
 	seen := map[string]bool{}
 	for _, l := range knownLines {
